@@ -95,6 +95,31 @@ def run(chk):
             chk.fail("the three entry points give identical Gumbel parameters (fitted distribution: explicit n honoured, default n = sample size)",
                      inp, [float(v) for v in g_exp + g_def], [float(v) for v in g_got + g_got_def])
     chk.sample(dict(loc=meta[0][0], scale=meta[0][1], shape=meta[0][2], n=meta[0][3]))
+    # ---- correspondence of the extreme-value chain of the summary with Qats.Stats.summary (Float) ---------------------------------
+    sl, sm = [], []
+    for k in range(12 if chk.quick else 150):
+        n = rng.choice([600, 1200])
+        t, x = signal(rng, n)
+        x = x + rng.choice([0.0, -5.0, 3.0])
+        ismin = rng.random() < 0.5
+        sd = rng.choice([10800., 3600., 1000.])
+        qs = (0.37, 0.57, 0.9)
+        ts = TimeSeries("s", t, x)
+        s_ = ts.stats(statsdur=sd, quantiles=qs, is_minima=ismin, include_sample=True)
+        dur = float(t[-1] - t[0])
+        sl.append("st.summary %d %s %s %s %s" % (ismin, fbits(sd), fbits(dur), ",".join(fbits(q) for q in qs), " ".join(fbits(v) for v in x)))
+        sm.append((s_, dict(signal_seed=k, n=n, statsdur=sd, is_minima=ismin)))
+    for (s_, inp), o in zip(sm, drv.run(sl)):
+        chk.count("st.summary")
+        if o.strip() == "ok none":
+            if np.size(s_["sample"]) > 1:
+                chk.disagree("st.summary", inp, o, "summary with %d maxima" % np.size(s_["sample"]))
+            continue
+        a, b, c = o[3:].split("|")
+        mv = [unfbits(v) for v in a.split()] + [unfbits(v) for v in b.split()]
+        im = [float(s_[k2]) for k2 in ("wloc", "wscale", "wshape", "gloc", "gscale")] + [float(s_["p_%.2f" % (100 * q)]) for q in (0.37, 0.57, 0.9)]
+        if int(c) != np.size(s_["sample"]) or not all(close(x1, x2, 1e-8) or (np.isnan(x1) and np.isnan(x2)) for x1, x2 in zip(mv, im)):
+            chk.disagree("st.summary", inp, mv, im)
     # ---- statistics summary ------------------------------------------------------------------------------------------------
     S = 25 if chk.quick else 250
     for k in range(S):
